@@ -1087,3 +1087,59 @@ def engine_pool(tier, seed):
     if not res['errors']:
         cache_put(key, res)
     return res
+
+
+def engine_posix(tier, seed):
+    """C13, differential half: the cases of Abi.tla executed on the real kernel
+    through a10 and through the synchronous system call, on identical fixtures."""
+    key = 'posix-%s-%s-%d' % (tier, tree_hash(), seed)
+    cached = cache_get(key)
+    if cached:
+        cached['cached'] = True
+        return cached
+    abi = engine_abi(tier, seed)      # enumerates (and caches) the cases
+    t0 = time.time()
+    res = {'engine': 'posix', 'tier': tier, 'tlc': [], 'replays': [], 'divergences': [], 'errors': list(abi['errors']), 'samples': [],
+           'cached': False}
+    cases = os.path.join(BUILD, 'replay', 'abi', 'cases.jsonl')
+    if not os.path.exists(cases):
+        res['errors'].append('posix: the Abi cases have not been enumerated')
+        return res
+    n = sum(1 for _ in open(cases))
+    bindir = build_harness()
+    outdir = os.path.join(BUILD, 'replay', 'posix')
+    os.makedirs(outdir, exist_ok=True)
+    out = os.path.join(outdir, 'out.jsonl')
+    rounds = 1 if tier == 'quick' else 3
+    total = 0
+    for rnd in range(rounds):
+        p = subprocess.run(['timeout', '900', os.path.join(bindir, 'replay_posix'), '--cases', cases, '--out', out], stdin=subprocess.DEVNULL,
+                           stdout=subprocess.DEVNULL, stderr=subprocess.PIPE)
+        summary = None
+        recs = []
+        if os.path.exists(out):
+            for line in open(out):
+                try:
+                    j = json.loads(line)
+                except ValueError:
+                    continue
+                if j.get('summary'):
+                    summary = j
+                else:
+                    j['tag'] = 'C13'
+                    j['model'] = 'Abi/posix'
+                    recs.append(j)
+        if summary is None:
+            res['errors'].append('replay_posix died (rc %s): %s' % (p.returncode, (p.stderr or b'').decode(errors='replace')[-300:]))
+            break
+        total += summary['paths']
+        res['divergences'] += recs
+        res['replays'].append({'model': 'Abi/differential against the system calls on the real kernel', 'variant': 'round %d' % rnd, 'paths': summary['paths'],
+                               'steps': summary['steps'], 'diverged_paths': summary['diverged_paths'], 'crashes': 0})
+        if recs:
+            break
+    res['wall_s'] = round(time.time() - t0, 1)
+    res['divergences_total'] = len(res['divergences'])
+    if not res['errors']:
+        cache_put(key, res)
+    return res
